@@ -47,6 +47,7 @@ def run(ctx):
         rule_branch(ctx, M)
         rule_work(ctx, M)
         rule_stop(ctx, M)
+        rule_progress_first(ctx, M)
         rule_resvec(ctx, M)
         rule_wrap(ctx, M, "C14.WRAP")
         adts = {M.consumers[n]["adt"] for n in ("TryForEachConsumer", "ResultVecConsumer") if n in M.consumers}
@@ -247,6 +248,36 @@ def rule_stop(ctx, M):
         ok2, bad = bi.must_reach([ed[1]], fl, bi.return_blocks)
         ctx.check(not hit and ok2 and bool(fl), "C14.STOP", b.def_, "after ConsumerState::Break: no iter.next(), no send; flush reached (%s)" % what[:60],
                   site=bi.describe(ed[0]), path=common.fmt_blocks(bi, hit + bad))
+
+
+def rule_progress_first(ctx, M):
+    """In every iteration of drive a *fresh* `(progress, next_item).race()` is built with the consumer's
+    progress future first, and a fresh tuple race polls position 0 first (Indexer::new starts at
+    offset 0, Indexer::iter hands out the old offset): a failure already sitting in the group is
+    observed before another item is taken from the source."""
+    from . import prims
+    ent = c13.find_costream(M, "from_stream::FromStream")
+    b = ent["drive"]
+    bi = M.info(b)
+    races = [s for s in bi.sites if s.callee.name == "race" and s.callee.trait == "Race"]
+    ok = len(races) == 1
+    if ok:
+        a = races[0].arg(0)
+        ok = a is not None and a[0] == "agg" and a[1] == "tuple" and len(a[2]) == 2
+        if ok:
+            firsts = []
+            for comp in a[2]:
+                body_ = None
+                if comp[0] == "agg" and isinstance(comp[1], tuple) and comp[1][0] == "coroutine":
+                    body_ = M.by_cdef.get(comp[1][1])
+                calls = [s.callee.name for s in M.info(body_).sites] if body_ is not None else []
+                firsts.append("progress" if "progress" in calls else ("next" if "next" in calls else "?"))
+            ok = firsts == ["progress", "next"]
+        lp = bi.body.innermost_loop(races[0].block)
+        ok = ok and lp is not None
+    ctx.check(ok, "C14.STOP", b.def_, "each iteration races a fresh (consumer.progress(), source.next()) pair, progress first", site=b.span)
+    with ctx.renamed({"X.ROT": "C14.STOP"}):
+        prims.check_indexer(ctx, M, "X.ROT")
 
 
 def rule_resvec(ctx, M):
